@@ -8,6 +8,7 @@ import (
 	"os"
 	"os/exec"
 	"path/filepath"
+	"runtime"
 	"sort"
 	"strings"
 	"sync"
@@ -413,8 +414,29 @@ var solvers = []solverDef{
 	}},
 }
 
+// solverSlots bounds the number of solver processes running at once (the checks start many queries in parallel;
+// without the bound they time each other out).
+var solverSlots = make(chan struct{}, maxInt(4, runtime.NumCPU()))
+
+func maxInt(a, b int) int {
+	if a > b {
+		return a
+	}
+	return b
+}
+
 func runSolver(sd solverDef, file string, timeoutMS int, hard time.Duration) (string, float64) {
-	ctx, cancel := context.WithTimeout(context.Background(), hard)
+	return runSolverCtx(context.Background(), sd, file, timeoutMS, hard)
+}
+
+func runSolverCtx(parent context.Context, sd solverDef, file string, timeoutMS int, hard time.Duration) (string, float64) {
+	select {
+	case solverSlots <- struct{}{}:
+	case <-parent.Done():
+		return "", 0
+	}
+	defer func() { <-solverSlots }()
+	ctx, cancel := context.WithTimeout(parent, hard)
 	defer cancel()
 	a := sd.args(timeoutMS, file)
 	cmd := exec.CommandContext(ctx, a[0], a[1:]...)
@@ -426,7 +448,6 @@ func runSolver(sd solverDef, file string, timeoutMS int, hard time.Duration) (st
 	return out.String(), time.Since(t0).Seconds()
 }
 
-// parseResults extracts the sequence of check-sat answers.
 func parseResults(out string) []string {
 	// a solver error reported before a verdict invalidates that verdict (an ill-formed script must never be
 	// read as an answer); errors after the last verdict (e.g. get-model after unsat) are harmless
@@ -502,6 +523,8 @@ func raceSingleOpt(vc *VC, ob *Obligation, cfg SolverCfg, fileBase string, deep 
 	}
 	ch := make(chan ans, len(solvers))
 	var wg sync.WaitGroup
+	rctx, rcancel := context.WithCancel(context.Background())
+	defer rcancel() // the first conclusive answer stops the other solvers
 	for _, sd := range solvers {
 		if sd.name == "cvc5" && strings.Contains(script, "(lambda ") {
 			continue
@@ -509,7 +532,7 @@ func raceSingleOpt(vc *VC, ob *Obligation, cfg SolverCfg, fileBase string, deep 
 		wg.Add(1)
 		go func(sd solverDef) {
 			defer wg.Done()
-			out, secs := runSolver(sd, file, cfg.TimeoutMS, time.Duration(cfg.TimeoutMS+5000)*time.Millisecond)
+			out, secs := runSolverCtx(rctx, sd, file, cfg.TimeoutMS, time.Duration(cfg.TimeoutMS+5000)*time.Millisecond)
 			rs := parseResults(out)
 			st := "unknown"
 			if len(rs) > 0 {
